@@ -99,3 +99,26 @@ MUTANTS["C01"] = [
     ("revert fixes 6d5271c+c8b47ec (F3+F4: sampler record)", [("revert", "6d5271c"), ("revert", "c8b47ec")]),
     ("revert fix 6d5271c only (F3: legacy replay of a loaded Sampler)", [("revert", "6d5271c")]),
 ]
+
+_CONNECT_TAIL = "                in_link_idx = len(in_links)\n                in_links.append(from_mod_idx)\n                out_link_idx = len(out_links)\n                out_links.append(to_mod_idx)\n                in_link_slots.append(out_link_idx)\n                out_link_slots.append(in_link_idx)"
+
+MUTANTS["C07"] = [
+    ("revert fix F5 (early return in list loops)", [("revert", "41d7978")]),
+    ("connect records the link on the incoming side only",
+     [("rv/project.py", _CONNECT_TAIL, "                in_link_idx = len(in_links)\n                in_links.append(from_mod_idx)\n                in_link_slots.append(len(out_links))")]),
+    ("disconnect blanks only the incoming end",
+     [("rv/project.py", "                    in_links[in_link_idx] = -1\n                    out_links[out_link_idx] = -1\n                    in_link_slots[in_link_idx] = -1\n                    out_link_slots[out_link_idx] = -1",
+       "                    in_links[in_link_idx] = -1\n                    in_link_slots[in_link_idx] = -1")]),
+    ("out_link_slots records the out index instead of the in index",
+     [("rv/project.py", "                out_link_slots.append(in_link_idx)", "                out_link_slots.append(out_link_idx)")]),
+    ("already-connected test looks at the wrong index",
+     [("rv/project.py", "                if from_mod_idx in in_links:  # Already connected?", "                if to_mod_idx in in_links:  # Already connected?")]),
+    ("ownership check removed for the destination operand",
+     [("rv/project.py", "                    to_mod_idx = self.module_index(to_module)\n                except ValueError:",
+       "                    to_mod_idx = to_module.index\n                except ValueError:")]),
+    ("reconnect after disconnect reuses the freed incoming slot but not the outgoing one",
+     [("rv/project.py", "                in_link_idx = len(in_links)\n                in_links.append(from_mod_idx)",
+       "                if -1 in in_links:\n                    in_link_idx = in_links.index(-1)\n                    in_links[in_link_idx] = from_mod_idx\n                    in_link_slots[in_link_idx] = len(out_links)\n                    out_links.append(to_mod_idx)\n                    out_link_slots.append(in_link_idx + 1)\n                    continue\n                in_link_idx = len(in_links)\n                in_links.append(from_mod_idx)")]),
+    ("disconnect of a self pair clears the first matching out slot of any module with that index",
+     [("rv/project.py", "                    out_link_idx = out_links.index(to_mod_idx)\n", "                    out_link_idx = out_links.index(to_mod_idx) if from_mod_idx != to_mod_idx else len(out_links) - 1\n")]),
+]
